@@ -20,6 +20,16 @@ from .astx import txt
 OPQ = lambda why: tm.atom_poly(("opaque", why))
 
 
+def varname(n: ast.AST) -> Optional[str]:
+    """Name of a tracked variable: a local Name, or an attribute path rooted at self (pseudo-variable)."""
+    if isinstance(n, ast.Name):
+        return n.id
+    p = astx.attr_path(n)
+    if p is not None and p.split(".")[0] == "self" and p.count(".") == 1:
+        return p
+    return None
+
+
 class Frame:
     def __init__(self, dom, level):
         self.dom, self.level = dom, level
@@ -174,8 +184,8 @@ class FunTerm:
             return
         if isinstance(v, ast.Call) and "logger" in txt(v.func).lower():
             return
-        if isinstance(v, ast.Call) and isinstance(v.func, ast.Attribute) and isinstance(v.func.value, ast.Name):
-            nm, meth = v.func.value.id, v.func.attr
+        if isinstance(v, ast.Call) and isinstance(v.func, ast.Attribute) and varname(v.func.value) is not None:
+            nm, meth = varname(v.func.value), v.func.attr
             if meth == "append" and len(v.args) == 1:
                 el = self.tr(v.args[0])
                 cur = self.env.get(nm)
@@ -200,17 +210,21 @@ class FunTerm:
         # other calls: effects on names passed are unknown but values of locals are unaffected
 
     def assign(self, t: ast.AST, value: ast.AST) -> None:
-        if isinstance(t, ast.Name):
-            self.define(t.id, self.tr(value))
+        if varname(t) is not None:
+            self.define(varname(t), self.tr(value))
         elif isinstance(t, (ast.Tuple, ast.List)) and all(isinstance(e, ast.Name) for e in t.elts):
             tv = self.tr(value)
             for k, e in enumerate(t.elts):
                 self.define(e.id, tm.subscript(tv, tm.const(k)))
-        elif isinstance(t, ast.Subscript) and isinstance(t.value, ast.Name):
-            nm = t.value.id
+        elif isinstance(t, ast.Subscript) and varname(t.value) is not None:
+            nm = varname(t.value)
             key = self.tr(t.slice)
             if nm not in self.env:
-                return
+                if "." in nm:
+                    self.env[nm] = tm.sym(nm)
+                    self.defdepth[nm] = 0
+                else:
+                    return
             cur = self.env[nm]
             a = tm.single_atom(cur)
             is_dict = a is not None and a[0] in ("dictacc",) or txt_is_empty_dict(cur)
@@ -254,9 +268,9 @@ class FunTerm:
 
     def augassign(self, st: ast.AugAssign) -> None:
         t = st.target
-        if isinstance(t, ast.Name):
-            nm = t.id
-            if any(isinstance(x, ast.Name) and x.id == nm for x in ast.walk(st.value)) and self.defdepth.get(nm, 0) < self.cur_depth():
+        if varname(t) is not None and not isinstance(t, ast.Subscript):
+            nm = varname(t)
+            if any(varname(x) == nm for x in ast.walk(st.value) if isinstance(x, (ast.Name, ast.Attribute))) and self.defdepth.get(nm, 0) < self.cur_depth():
                 self.env[nm] = OPQ(f"{nm} reads its own running value")
                 return
             v = self.tr(st.value)
@@ -275,8 +289,11 @@ class FunTerm:
                 self.contribute(nm, "prod", tm.power(v, tm.const(-1)))
             else:
                 self.env[nm] = OPQ(f"aug {type(st.op).__name__} in loop")
-        elif isinstance(t, ast.Subscript) and isinstance(t.value, ast.Name) and t.value.id in self.env:
-            nm = t.value.id
+        elif isinstance(t, ast.Subscript) and varname(t.value) is not None and (varname(t.value) in self.env or "." in varname(t.value)):
+            nm = varname(t.value)
+            if nm not in self.env:
+                self.env[nm] = tm.sym(nm)
+                self.defdepth[nm] = 0
             key = self.tr(t.slice)
             v = self.tr(st.value)
             cur = self.env[nm]
